@@ -24,6 +24,9 @@ ShapeOps  == {"+", "-", "*", "/", "**"}
 PairCmps  == {"<", ">=", "=="}
 LtOnly    == {"<"}
 AllCmps   == {"<", "<=", ">", ">=", "==", "!="}
+FortIdxs  == {0, -1, 1}
+FortNums  == {"2", "0.5", "0.1", "3"}
+FortF1    == {"exp", "log", "abs"}
 PairF1    == {"exp", "log", "abs", "np.sqrt"}
 PairF2    == {"max", "min"}
 MaxOnly   == {"max"}
